@@ -2323,6 +2323,36 @@ def run (self : Session δ ν σ) (parameters : Dict ν) (solver : σ) (rebuild 
 """
 
 
+PIPE_OUT = []
+PIPE_HEADER = """-- GENERATED by harness/translate/gen_rates.py from /repo (summer2/runner/jax/model_impl.py: build_run_model.run_model). Do not edit.
+import Summer.Model.Pipeline
+set_option linter.unusedVariables false
+namespace Summer.Generated.PipelineSrc
+open Summer Summer.Run Summer.Derived Summer.Pipeline
+
+section
+variable {α : Type} [Zero α] [One α] [Add α] [Sub α] [Mul α] [Div α] [NatCast α] [LT α] [DecidableLT α]
+"""
+PIPE_LEAN = """
+/-- the closure `run_model(parameters)` of `model_impl.py::build_run_model`, statement by statement (its statements are pinned as an ordered
+subsequence of `build_run_model`, see `gen_session`).  `static_graph_func(parameters=parameters)` is the evaluation of the frozen static graph
+under this call's parameters: the values read from it (initial population, static weights, infectiousness) are computed under `parameters`,
+and it raises when a parameter is missing (the definedness test at the initial state); `get_ode_solution` is the solver closure chosen by the
+dispatch, integrating `get_comp_rates` (the model's right-hand side under `static_graph_vals`) from the initial population over `times`;
+`do_full_params = do_base_params.copy(); do_full_params.update(parameters)`: this call's values take precedence -/
+def run_model (m : Model α) (b : Backend) (get_ode_solution : (List α → α → List α) → List α → List α → List (List α))
+    (do_base_params parameters : List (String × α)) : Option (List (List α) × List (String × List α)) := do
+  let initial_population ← initialPopulation m parameters
+  let times := modelTimes m
+  let _static_graph_vals ← step m b parameters (times.getD 0 0) initial_population
+  let outputs := get_ode_solution (fieldFn m b parameters) initial_population times
+  let (out_flows, out_cv) ← flowsForOutputs m b parameters times outputs
+  let do_full_params := parameters ++ do_base_params
+  let model_variables : RunData α := { times := times, outputs := outputs, flows := out_flows, computed := out_cv, params := do_full_params }
+  let derived_outputs ← derivedOutputs m model_variables
+  pure (outputs, derived_outputs)
+"""
+
 def gen_session(tree, out, report):
     try:
         classes = {n.name: {m.name: m for m in n.body if isinstance(m, ast.FunctionDef)} for n in tree.body if isinstance(n, ast.ClassDef)}
@@ -2393,6 +2423,10 @@ def gen_session(tree, out, report):
             "def run_model(parameters):",
             "static_graph_vals = static_graph_func(parameters=parameters)",
             "initial_population = calc_initial_pop(static_graph_vals)",
+            "static_flow_weights = jnp.zeros(len(runner.model.flows))",
+            "for (k, v) in static_flow_map.items():",
+            "compartment_infectiousness = get_compartment_infectiousness(static_graph_vals)",
+            "model_data = {'compartment_infectiousness': compartment_infectiousness, 'static_flow_weights': static_flow_weights}",
             "outputs = get_ode_solution(initial_population, times, static_graph_vals, model_data)",
             "out_flows, out_cv = get_flows_for_outputs(outputs, static_graph_vals, model_data)",
             "model_variables = {'outputs': outputs, 'flows': out_flows, 'computed_values': out_cv}",
@@ -2415,6 +2449,7 @@ def gen_session(tree, out, report):
                 raise Untranslatable(f"build_run_model: `{nm}` is assigned in a statement that is not pinned")
         out.append(SESS_LEAN)
         report["model.py session"] = "ok"
+        PIPE_OUT.append(PIPE_LEAN)
     except Untranslatable as e:
         report["model.py session"] = "untranslatable: " + str(e)
     except Exception as e:
@@ -3008,6 +3043,13 @@ def main():
     if old != dttext:
         with open(dtpath, "w") as f:
             f.write(dttext)
+    # pipeline (filled by gen_session)
+    pptext = "\n".join([PIPE_HEADER] + PIPE_OUT + ["end\nend Summer.Generated.PipelineSrc\n"])
+    pppath = os.path.join(OUT, "PipelineSrc.lean")
+    old = open(pppath).read() if os.path.exists(pppath) else None
+    if old != pptext:
+        with open(pppath, "w") as f:
+            f.write(pptext)
     # util.py
     uout = [UHEADER]
     try:
